@@ -2780,6 +2780,10 @@ fn eval_built_in_call(
                     print_as_json(&response, session.pretty_print_json);
                 }
                 StdoutStderrMode::WriteToNReplBuffers { stdout_buf, .. } => {
+                    #[cfg(wilfred_garden_verif)]
+                    let mut verif_guard = crate::nrepl::verif::lock();
+                    #[cfg(wilfred_garden_verif)]
+                    crate::nrepl::verif::print_event(&mut verif_guard, "out", s);
                     stdout_buf
                         .lock()
                         .expect("stdout buffer poisoned")
@@ -2832,6 +2836,10 @@ fn eval_built_in_call(
                     print_as_json(&response, session.pretty_print_json);
                 }
                 StdoutStderrMode::WriteToNReplBuffers { stdout_buf, .. } => {
+                    #[cfg(wilfred_garden_verif)]
+                    let mut verif_guard = crate::nrepl::verif::lock();
+                    #[cfg(wilfred_garden_verif)]
+                    crate::nrepl::verif::print_event(&mut verif_guard, "out", &format!("{s}\n"));
                     let mut b = stdout_buf.lock().expect("stdout buffer poisoned");
                     b.push_str(s);
                     b.push('\n');
@@ -2879,6 +2887,10 @@ fn eval_built_in_call(
                     print_as_json(&response, session.pretty_print_json);
                 }
                 StdoutStderrMode::WriteToNReplBuffers { stderr_buf, .. } => {
+                    #[cfg(wilfred_garden_verif)]
+                    let mut verif_guard = crate::nrepl::verif::lock();
+                    #[cfg(wilfred_garden_verif)]
+                    crate::nrepl::verif::print_event(&mut verif_guard, "err", s);
                     stderr_buf
                         .lock()
                         .expect("stderr buffer poisoned")
@@ -2931,6 +2943,10 @@ fn eval_built_in_call(
                     print_as_json(&response, session.pretty_print_json);
                 }
                 StdoutStderrMode::WriteToNReplBuffers { stderr_buf, .. } => {
+                    #[cfg(wilfred_garden_verif)]
+                    let mut verif_guard = crate::nrepl::verif::lock();
+                    #[cfg(wilfred_garden_verif)]
+                    crate::nrepl::verif::print_event(&mut verif_guard, "err", &format!("{s}\n"));
                     let mut b = stderr_buf.lock().expect("stderr buffer poisoned");
                     b.push_str(s);
                     b.push('\n');
@@ -3131,6 +3147,10 @@ fn eval_built_in_call(
                     print_as_json(&response, session.pretty_print_json);
                 }
                 StdoutStderrMode::WriteToNReplBuffers { stderr_buf, .. } => {
+                    #[cfg(wilfred_garden_verif)]
+                    let mut verif_guard = crate::nrepl::verif::lock();
+                    #[cfg(wilfred_garden_verif)]
+                    crate::nrepl::verif::print_event(&mut verif_guard, "err", &line);
                     let mut b = stderr_buf.lock().expect("stderr buffer poisoned");
                     b.push_str(&line);
                 }
@@ -7242,11 +7262,20 @@ pub(crate) fn eval(env: &mut Env, session: &Session) -> Result<Value, EvalError>
                 session.interrupted.store(true, Ordering::SeqCst);
             }
 
+            #[cfg(wilfred_garden_verif)]
+            let mut verif_guard = crate::nrepl::verif::check_guard();
             if session.interrupted.load(Ordering::SeqCst) {
                 session.interrupted.store(false, Ordering::SeqCst);
+                #[cfg(wilfred_garden_verif)]
+                crate::nrepl::verif::ev(
+                    &mut verif_guard,
+                    &format!("w {} check", crate::nrepl::verif::sid()),
+                );
                 restore_stack_frame(env, (expr_state, outer_expr), &[]);
                 return Err(EvalError::Interrupted);
             }
+            #[cfg(wilfred_garden_verif)]
+            drop(verif_guard);
 
             if let Some(tick_limit) = env.tick_limit {
                 if env.ticks >= tick_limit {
